@@ -38,6 +38,9 @@ const (
 	// fitOldGuard (C10): the organisms of old species hold the highest, never improving fitness (those species stagnate and
 	// are "dying" while they still rank first), the younger species score lower but improve with every generation
 	fitOldGuard = 102
+	// fitFewRisers (C10): every fourth species (by id) scores low but improves with every generation, all the others hold the
+	// same high, constant score: the leaders are "dying" while they rank first and only a few species qualify for stolen babies
+	fitFewRisers = 103
 )
 
 var fitNames = []string{"all-zero", "constant", "uniform", "log-normal", "one-dominant", "stagnating", "distinct-positive", "huge (sum overflows)"}
@@ -78,6 +81,9 @@ func fitName(shape int) string {
 	}
 	if shape == fitOldGuard {
 		return "old species lead but stagnate, young ones improve"
+	}
+	if shape == fitFewRisers {
+		return "most species lead and stagnate, every fourth improves"
 	}
 	return fitNames[shape]
 }
@@ -183,9 +189,21 @@ func assignFitness(r *rand.Rand, shape, gen int, pop *genetics.Population) {
 			org.Fitness = math.Exp(r.NormFloat64()*2) + float64(i+1)*1e-7
 		case fitOldGuard:
 			if org.Species != nil && org.Species.Age > 5 {
-				org.Fitness = 10 + float64(i+1)*1e-7
+				// (declining by a hair with every generation, so that no reshuffle of the distinct values counts as an improvement)
+				org.Fitness = 10 - float64(gen)*1e-4 - float64(i+1)*1e-8
 			} else {
 				org.Fitness = 3 + 0.05*float64(gen) + float64(i+1)*1e-7
+			}
+		case fitFewRisers:
+			if org.Species != nil && org.Species.Id%4 == 2 {
+				// the leader of a rising species improves steadily, its other members score a fraction of that: the species ranks by
+				// its leader but draws its quota from the average
+				org.Fitness = 3 + 0.05*float64(gen) + 0.4*float64(org.Species.Id%5) + float64(i+1)*1e-7
+				if len(org.Species.Organisms) > 0 && org.Species.Organisms[0] != org {
+					org.Fitness *= 0.02 + 0.3*r.Float64()
+				}
+			} else {
+				org.Fitness = 10 - float64(gen)*1e-4 - float64(i+1)*1e-8
 			}
 		case fitZeroSpecies:
 			org.Fitness = r.Float64() * 7
